@@ -312,7 +312,7 @@ fn run_sink_scenario(out: &mut Out, scn: &Value, tag: usize) {
     let format: ResponseOutputFormat = if fmt == "json" {
         serde_json::from_value(json!({"type": "json", "newline_delimited": true})).unwrap()
     } else {
-        serde_json::from_value(json!({"type": "csv", "sorted": scn["sorted"], "mapping": {"Rid": "rid", "len": "len", "Pad": "pad"}})).unwrap()   // column names of mixed case: header and rows must still agree
+        serde_json::from_value(json!({"type": "csv", "sorted": scn["sorted"], "mapping": {"Rid": "rid", "len": "len", "Pad": "pad", "grp": "grp"}})).unwrap()   // column names of mixed case: header and rows must still agree
     };
     let policy = ResponseOutputPolicy::File {
         filename: path.to_str().unwrap().to_string(),
@@ -343,7 +343,7 @@ fn run_sink_scenario(out: &mut Out, scn: &Value, tag: usize) {
             .iter()
             .flatten()
             .map(|(rid, len)| {
-                let mut v = json!({"rid": rid, "len": len, "pad": "x".repeat(*len)});
+                let mut v = json!({"rid": rid, "len": len, "pad": "x".repeat(*len), "grp": if rid % 5 == 0 { Value::Null } else { json!(rid * 2) }});
                 if rid % 3 == 0 {
                     v["error"] = json!(format!("no path exists between vertices {} and {}", rid, len));
                     if rid % 2 == 0 {
@@ -368,7 +368,8 @@ fn run_sink_scenario(out: &mut Out, scn: &Value, tag: usize) {
                     let mut oks = 0;
                     let mut touched: Vec<i64> = vec![];
                     for (rid, len) in mine {
-                        let mut resp = json!({"rid": rid, "len": len, "pad": "x".repeat(len)});
+                        // "grp" is present in every response and holds an explicit null in every fifth one
+                        let mut resp = json!({"rid": rid, "len": len, "pad": "x".repeat(len), "grp": if rid % 5 == 0 { Value::Null } else { json!(rid * 2) }});
                         if rid % 3 == 0 {
                             // a response that already reports an error (and lacks a mapped field under CSV)
                             resp["error"] = json!(format!("no path exists between vertices {} and {}", rid, len));
@@ -383,7 +384,9 @@ fn run_sink_scenario(out: &mut Out, scn: &Value, tag: usize) {
                         }
                         // everything the response held before the write must still be there
                         let kept = before.as_object().unwrap().iter().all(|(k, v)| resp.get(k) == Some(v));
-                        if !kept {
+                        // ... and a response that has every mapped field comes back exactly as it went in
+                        let complete = before.get("len").is_some();
+                        if !kept || (complete && resp != before) {
                             touched.push(rid);
                         }
                     }
@@ -423,7 +426,8 @@ fn run_sink_scenario(out: &mut Out, scn: &Value, tag: usize) {
                 let rid = get("Rid").parse::<i64>().unwrap_or(-1);
                 let want_len = plan.iter().flatten().find(|(r, _)| *r == rid).map(|(_, l)| *l).unwrap_or(usize::MAX);
                 let len_cell_ok = get("len").is_empty() || get("len").parse::<usize>().ok() == Some(want_len);
-                (rid, cells.len() == cols.len() && len_cell_ok && get("Pad").len() == want_len && get("Pad").bytes().all(|b| b == b'x'))
+                let grp_ok = if rid % 5 == 0 { get("grp") == "null" } else { get("grp").parse::<i64>().ok() == Some(rid * 2) };
+                (rid, cells.len() == cols.len() && len_cell_ok && grp_ok && get("Pad").len() == want_len && get("Pad").bytes().all(|b| b == b'x'))
             };
             out.event(json!({"ev": "FileLine", "rid": rid, "intact": intact}));
         }
